@@ -57,7 +57,7 @@ var _ RawRegister8 = ParseTXTErrorStatus(0)
 
 // ReadTXTErrorStatusRegister reads a txt error status register from TXT config
 func ReadTXTErrorStatusRegister(data TXTConfigSpace) (TXTErrorStatus, error) {
-	buf := bytes.NewReader(data[TXTErrorStatusRegisterOffset:])
+	buf := bytes.NewReader(data.from(TXTErrorStatusRegisterOffset))
 	var u8 uint8
 	if err := binary.Read(buf, binary.LittleEndian, &u8); err != nil {
 		return 0, err
